@@ -33,20 +33,29 @@ def run(ctx):
     base = []
     for fam, nq, nt in (("core", 60, 600), ("limits", 120, 1200), ("hours", 60, 600), ("coredeps", 40, 400), ("subslot", 40, 400), ("alap", 30, 300), ("yearend", 60, 600), ("bookings", 120, 800)):
         base += gens.family(ctx, fam, ctx.n(nq, nt))
-    for ap in base:                      # UTC projects: the property is about UTC, drop resource time zones
+    for ap in base:                      # UTC projects: the property is about UTC; a resource may still NAME its zone, as UTC
         for _, n in projects.walk(ap["resources"]):
-            n.pop("tz", None)
+            if n.pop("tz", None) is not None and ctx.rng.random() < 0.7:
+                n["tz"] = ctx.rng.choice(["Etc/UTC", "UTC"])
     ks = [1, 2, 3, 4, 5, 9, 13, 26, 51, 52, 53, 60, 104, 157, 209, 261, 300]
     shifted, kk = [], []
     for ap in base:
         k = ctx.rng.choice(ks)
         kk.append(k)
         shifted.append(shift(ap, k))
-    ra = projects.schedule_all(ctx, base, ledger=False)
-    rb = projects.schedule_all(ctx, shifted, ledger=False)
+    # the zone of the PROCESS is no part of a UTC project: both runs of a pair happen under the same one of three
+    zones = [None, "Europe/Berlin", "America/New_York"]
+    ra, rb = [None] * len(base), [None] * len(base)
+    for zi, z in enumerate(zones):
+        idx = [i for i in range(len(base)) if i % len(zones) == zi]
+        env = {"TZ": z} if z else None
+        for dst, src in ((ra, base), (rb, shifted)):
+            for i, r in zip(idx, projects.schedule_all(ctx, [src[i] for i in idx], ledger=False, env=env)):
+                dst[i] = r
     bad, stats = [], Counter()
-    for ap, ap2, k, a, b in zip(base, shifted, kk, ra, rb):
+    for i_, (ap, ap2, k, a, b) in enumerate(zip(base, shifted, kk, ra, rb)):
         stats["weeks:%d" % k] += 1
+        stats["process_zone:%s" % zones[i_ % len(zones)]] += 1
         if not a.get("ok") or not b.get("ok"):
             if a.get("ok") != b.get("ok"):
                 bad.append({"what": "one of the two runs failed", "weeks": k, "a": a.get("exc"), "b": b.get("exc"), "project": projects.render(ap)})
@@ -62,7 +71,7 @@ def run(ctx):
                 diff[t] = {"original": [x["sched"], x["start"], x["end"]], "shifted_minus_offset": None if not y else [y["sched"], None if y["start"] is None else y["start"] - d, None if y["end"] is None else y["end"] - d]}
         stats["compared"] += 1
         if diff:
-            bad.append({"what": "shifting every date by whole weeks did not shift the schedule by the same amount", "weeks": k,
+            bad.append({"what": "shifting every date by whole weeks did not shift the schedule by the same amount", "weeks": k, "TZ_of_the_process": zones[i_ % len(zones)],
                         "differences": dict(list(diff.items())[:4]), "project": projects.render(ap), "shifted_project": projects.render(ap2)})
     # ---- the dates as REPORTED: 'plan report --csv' of the project as given and shifted (year-end projects first)
     import cli, csv, io, datetime
@@ -115,7 +124,7 @@ def run(ctx):
         violations.append({"no_input": True, "replay": common.write_replay(ctx, {"property": "C14", "kind": "proof obligation no longer checks; no failing input found", "failing_obligations": failing})})
     cov = {"obligations": nob, "discharged": ndis, "checker_cmd": "tools/coqbuild.sh (coqc 8.16.1 full .vo build) after translate/py2v.py /repo -> coq/Gen", "trusted_base": common.TRUSTED, "files": files,
            "traces_validated_against_impl": stats["compared"], "input_distribution": dict(stats),
-           "rule": "UTC projects (limits on resources/groups/tasks, own hours and shifts, leaves, vacations, holidays, pinned starts, ALAP deadlines; starts incl. year ends, 53-week years, Sundays, times of day) scheduled as given and with every date moved by k weeks (incl. leaves of one and two calendar months, whose end lands on another day of the month after some shifts), k in {1,2,3,4,5,9,13,26,51,52,53,60,104,157,209,261,300} (across leap days, year ends and 53-week ISO years); for the year-end projects also the dates printed by 'plan report --csv' of both",
+           "rule": "UTC projects (resources may name their zone as Etc/UTC; each pair runs in a process whose own zone is unset, Europe/Berlin or America/New_York; limits on resources/groups/tasks, own hours and shifts, leaves, vacations, holidays, pinned starts, ALAP deadlines; starts incl. year ends, 53-week years, Sundays, times of day) scheduled as given and with every date moved by k weeks (incl. leaves of one and two calendar months, whose end lands on another day of the month after some shifts), k in {1,2,3,4,5,9,13,26,51,52,53,60,104,157,209,261,300} (across leap days, year ends and 53-week ISO years); for the year-end projects also the dates printed by 'plan report --csv' of both",
            "samples": [{"weeks": kk[0], "project": projects.render(base[0])[:800]}]}
     common.finish(ctx, "proof", cov, violations,
                   ["project end given in days/weeks (month/year durations move the end by a non-week amount by definition)",
